@@ -201,7 +201,7 @@ CHECKS["C04"] = {
 CHECKS["C01"] = {
     "pkg": "./conn",
     "level": "exploration",
-    "rule": ("A case is a configuration (split size -1/0/1/2/7/64/1000, writer buffer 1/16/100/default, manual or automatic flushing, soft/hard cancel, stream buffer limit), 1..3 consecutive RPCs in one of "
+    "rule": ("A case is a configuration (split size -1/0/1/2/7/64/1000, writer buffer 1/16/100/default, manual or automatic flushing, soft/hard cancel, stream buffer limit, reader packet limit 64/300/5000 with messages of exactly the limit, an encoding with or without MarshalAppend, MsgSend/MsgRecv or the raw stream interface), 1..3 consecutive RPCs in one of "
              "three shapes (sequential; sender and receiver on separate goroutines on both ends; two concurrent senders per side), message sizes drawn around the split size and writer buffer boundaries, "
              "an optional closer (Close or cancel from another goroutine), optionally 1..3 scheduling points held (including the consumer parked inside Unmarshal while it borrows the read buffer), and up to 400 director "
              "choices (1-byte/7-byte/half/whole deliveries and accepts, grants, releases). Oracle: every received payload is self-describing (rpc, direction, sender, sequence, CRC) and must be the next "
